@@ -213,6 +213,16 @@ pub fn enumerate(n: usize, leaves: &[G], in_word: bool, out: &mut Vec<G>) {
                 out.push(G::Fb(vec![a.clone(), b.clone()]));
             }
         }
+        if in_word && n <= 4 {
+            // a juxtaposition nested in a group of a word, e.g. `--r=(all|from<N>),x`
+            for a in &l {
+                for b in &r {
+                    if word_part_ok(a) && word_part_ok(b) && !(matches!(a, G::Lit(..)) && matches!(b, G::Lit(..))) {
+                        out.push(G::Sub(vec![a.clone(), b.clone()]));
+                    }
+                }
+            }
+        }
         if !in_word {
             let mut wl = vec![];
             let mut wr = vec![];
@@ -253,6 +263,7 @@ fn word_part_ok(g: &G) -> bool {
 fn word_inner_ok(g: &G) -> bool {
     match g {
         G::Lit(_, None) | G::Nt(_) | G::Cmd(_) => true,
+        G::Sub(v) => v.iter().all(word_part_ok),
         G::Opt(x) | G::Many(x) | G::Dd(x, _) => word_inner_ok(x),
         G::Alt(v) | G::Seq(v) | G::Fb(v) => v.iter().all(word_inner_ok),
         _ => false,
